@@ -505,6 +505,9 @@ Step ==
                /\ viol' = viol \o tv
                     \o (IF ivs # <<>> THEN <<V("C19", "interval_goroutine_left_behind", "", [n |-> Len(ivs), onCheckGrid |-> co])>> ELSE <<>>)
                     \o (IF oth # <<>> THEN <<V("C09", "goroutine_left_behind", "", oth)>> ELSE <<>>)
+                    \* every session closed, every legitimate timeout run out, and a timer of the library still fires
+                    \o (IF "timersFiring" \in DOMAIN e /\ e.timersFiring > 0
+                        THEN <<V("C19", "timer_left_armed", "", [fires |-> e.timersFiring, onCheckGrid |-> co])>> ELSE <<>>)
                /\ UNCHANGED <<cfg, Rq, Cn>>
        [] e.e = "bubble.panic" /\ e.leak -> UNCHANGED <<cfg, S, Rq, Cn, viol>>     \* reported by the finish event (goroutines left)
        [] e.e \in {"handler.panic", "bubble.panic", "wedged", "process.died"} ->
